@@ -162,6 +162,48 @@ static _Bool qx_reach(struct %(HT)s *t, unsigned int k)
                 clause='after generateHash every live slot (hash not 0) is reachable from its bucket head along Next (so a key is found again after Sort / Resize / Compress rebuilt the chains)')
 
 
+def rename_job():
+    """bounded stand-in: the real HashTable::Rename on a table of capacity 4 holding three one-unit keys with symbolic hashes (every collision pattern),
+    chains built by the real generateHash; any of the three keys is renamed to a fourth key with a symbolic hash; afterwards the real lookup finds the
+    new key and the two untouched keys and does not find the old one"""
+    FN_REN = HT + '_Rename__const_StringView__char_r_StringView__char_rr_c'
+    FN_HAS = HT + '_Has__const_char_p_const_unsigned_int_c'
+    h = '''
+static char qx_keys[4];
+static unsigned int g_h[4];   /* symbolic hash per key; StringUtils::Hash itself is enforced separately */
+unsigned int StringUtils_Hash__char(const char *key, unsigned int length) { return g_h[key - qx_keys] | 0x80000000u; }
+void qx_harness(void)
+{
+  struct %(HT)s t;
+  char c0, c1, c2, c3;
+  __CPROVER_assume(c0 != c1 && c0 != c2 && c0 != c3 && c1 != c2 && c1 != c3 && c2 != c3);
+  qx_keys[0] = c0; qx_keys[1] = c1; qx_keys[2] = c2; qx_keys[3] = c3;
+  { unsigned int h0, h1, h2, h3; g_h[0] = h0; g_h[1] = h1; g_h[2] = h2; g_h[3] = h3; }
+  t.capacity_ = 4; t.index_ = 3;
+  t.hashTable_ = (unsigned int *)malloc(4 * (sizeof(unsigned int) + sizeof(%(HIT)s)));
+  __builtin_memset(t.hashTable_, 0, 4 * (sizeof(unsigned int) + sizeof(%(HIT)s)));
+  %(HIT)s *st = (%(HIT)s *)(t.hashTable_ + 4);
+  for (unsigned int i = 0; i < 3; i++) { st[i].Key.storage_ = &qx_keys[i]; st[i].Key.length_ = 1; st[i].Hash = g_h[i] | 0x80000000u; }
+  %(GEN)s(&t);
+  unsigned int a; __CPROVER_assume(a < 3);
+  struct StringView__char from, to;
+  from.storage_ = &qx_keys[a]; from.length_ = 1; to.storage_ = &qx_keys[3]; to.length_ = 1;
+  _Bool ok = %(REN)s(&t, &from, &to);
+  __CPROVER_assert(ok, "renaming a stored key to a key that is not stored succeeds");
+  __CPROVER_assert(%(HAS)s(&t, &qx_keys[3], 1u), "the new key is found after the rename");
+  __CPROVER_assert(!%(HAS)s(&t, &qx_keys[a], 1u), "the old key is no longer found");
+  for (unsigned int k = 0; k < 3; k++) if (k != a) __CPROVER_assert(%(HAS)s(&t, &qx_keys[k], 1u), "the other keys are still found");
+}
+''' % dict(HT=HT, HIT=HIT, GEN=FN_GEN, REN=FN_REN, HAS=FN_HAS)
+    return dict(name='HashTable.Rename.lookup-after-rename', unit=HUNIT, fn=FN_REN, roots=[QHT + '::Rename(const Qentem::StringView<char> &, Qentem::StringView<char> &&)',
+                                                                                     QHT + '::Has(const char *, const unsigned int)', QHT + '::generateHash'],
+                specs={}, mode='raw', harness=h, cuts=['StringUtils_Hash__char'], solver='cadical', timeout=600, objbits=9, canary=False,
+                cbmc_flags=['--unwind', '6', '--unwinding-assertions'],
+                bounded='capacity 4, three stored one-unit keys with symbolic code units and symbolic hashes (all collision patterns), any of them renamed to a fourth key with a symbolic hash',
+                must_have=['assertion'],
+                clause='after Rename the real lookup finds the new key and the untouched keys and not the old key')
+
+
 _jobs_c13 = jobs
 
 
@@ -169,4 +211,4 @@ def jobs(tier):
     # the bounded map-model scenarios below do not fit: CBMC runs out of memory (14 GB) while converting the SSA of even one five-operation
     # scenario of the real HashTable code (quicksort recursion, chain walks, re-hash).  Kept for the record, not run.
     unfinished = [map_model_job(n, ops) for n, ops in SCENARIOS.items()]
-    return _jobs_c13(tier) + [generate_hash_job(c) for c in (1, 2, 4, 8)]
+    return _jobs_c13(tier) + [generate_hash_job(c) for c in (1, 2, 4, 8)] + [rename_job()]
